@@ -69,7 +69,7 @@ class Checker:
                 prop = vv[0].split('.')[0]
                 self.v(prop, 'inproc|' + vv[0].split('.', 1)[1], op, vv[1:])
             for a in op.asserts:
-                self.v('C11', 'assert|%s:%d' % (a[1], a[2]), op, None)
+                self.v('C11', 'assert|' + assert_key(a[1], a[2]), op, {'file': a[1], 'line': a[2]})
             if op.op == OP['DESTROY']:
                 self.on_destroy(op); continue
             if op.act is None:
@@ -131,7 +131,7 @@ class Checker:
         pre, guards, cbs, enters, plines, llines = self.split(op)
         m.set_step(op.step)
         kind = OPS[op.op]
-        processed = False; rounds = []
+        processed = False; rounds = []; queued_before = 0
         before = (prev_op.act, prev_op.res) if prev_op is not None else None
         if kind == 'CONSTRUCT':
             if not self.manual: rounds = m.initial_enter(guards); processed = True
@@ -139,6 +139,7 @@ class Checker:
         elif kind == 'ENTER':
             rounds = m.initial_enter(guards); processed = True
         elif kind in ('UPDATE', 'REACT', 'REACT2', 'IMMEDIATE'):
+            queued_before = len(m.queue)
             for q in pre: m.enqueue(q)
             rounds = m.process(guards); processed = True
         elif kind == 'RESET':
@@ -164,8 +165,8 @@ class Checker:
             self.v(prop, key, op, {'expected': [exp_act, exp_res, exp_sub], 'observed': [op.act, op.res, op.sub], 'requests': pre[:6], 'notes': sorted(notes)})
             m.resync(op.act, op.res)
         if kind == 'QUERY' and before and (op.act, op.res) != before: self.v('C05', 'query|changed-configuration', op)
-        if processed and not pre and not m.prev and not guards and before and kind != 'ENTER' and kind != 'CONSTRUCT':
-            if (op.act, op.res) != before and 'leftover' not in notes and not prev_leftover(prev_op):
+        if processed and not pre and not queued_before and not guards and before and kind != 'ENTER' and kind != 'CONSTRUCT':
+            if (op.act, op.res) != before:
                 self.v('C02', 'config|changed-with-nothing-pending', op)
         # ---- C12: number of generator calls
         if m.ans.draws != op.draws:
@@ -187,7 +188,7 @@ class Checker:
         if kind == 'EXIT' and st['entered']:
             self.v('C03', 'life|states-still-entered-after-exit', op, sorted(st['entered'])); st['entered'] = set()
         # ---- C04 trace checks
-        if processed: self.guards_trace(op, kind, guards, cbs, rounds, notes, before, pre)
+        if processed: self.guards_trace(op, kind, guards, cbs, rounds, notes, before, pre, queued_before)
         # ---- C09 history
         if op.prev is not None: self.history(op, kind, m, rounds, cbs, before)
         # ---- C13 queries
@@ -234,7 +235,7 @@ class Checker:
         return ','.join(ks) + ('|' + ','.join(tag) if tag else '')
 
     # ------------------------------------------------------------------ C04
-    def guards_trace(self, op, kind, guards, cbs, rounds, notes, before, pre):
+    def guards_trace(self, op, kind, guards, cbs, rounds, notes, before, pre, queued_before):
         first_life = None
         for i, (me, s) in enumerate(cbs):
             if me in LIFE: first_life = i; break
@@ -255,7 +256,7 @@ class Checker:
         initial = kind in ('ENTER', 'CONSTRUCT')
         nr = len([r for r in obs_rounds if r['pend'] != [] or not initial])
         if nr > self.limit: self.v('C04', 'rounds|more-guard-phases-than-substitution-limit', op, nr)
-        for nkey in ('guards-missing', 'guards-unconsumed'):
+        for nkey in ('guards-unconsumed',):
             if nkey in notes: self.v('C04', 'pending|guards-do-not-match-the-rounds-prescribed|' + nkey, op, {'observed-rounds': [r['pend'] for r in obs_rounds], 'model-rounds': [r['ids'] for r in rounds]})
         approved = [r for r in obs_rounds if not r['cancel']]
         xg = set(); eg = set()
@@ -267,7 +268,7 @@ class Checker:
             if me == EXIT and s not in xg: self.v('C04', 'order|exit-without-exit-guard-in-approved-round', op, s)
         # all rounds vetoed, no scheduling request: nothing may change (independent of the interpreter)
         allreq = pre + [q for g in guards for q in g['issue']]
-        if obs_rounds and not approved and not initial and before and not any(q[0] == SCHEDULE for q in allreq) and not prev_leftover_sched(self, op):
+        if obs_rounds and not approved and not initial and before and not any(q[0] == SCHEDULE for q in allreq) and not queued_before:
             if (op.act, op.res) != before: self.v('C04', 'veto|configuration-changed-although-every-round-was-vetoed', op, {'before': before, 'after': (op.act, op.res)})
 
     # ------------------------------------------------------------------ C09
@@ -354,11 +355,29 @@ class Checker:
                 if t is None or t[1] != tid: self.v('C14', 'payload|lastTransition-in-update-differs-from-lastTransitionTo', op, {'state': s, 'read': tid, 'reported': t})
         if op.prev: self.nontrivial['C14'].add(tuple(p[0] for p in op.prev))
 
-def prev_leftover(prev_op):
-    return False
-def prev_leftover_sched(chk, op):
-    st = chk.state(op.inst)
-    return 'leftover-consumed' in st
+_akeys = {}
+def assert_key(fname, line):
+    """stable key of a library assertion: enclosing function + asserted expression (survives line shifts)"""
+    import os, re
+    k = (fname, line)
+    if k in _akeys: return _akeys[k]
+    repo = os.environ.get('VERIF_REPO', '/repo'); path = None
+    for d, _, files in os.walk(repo):
+        if '/.git' in d or '/_build' in d or '/external' in d or '/test' in d: continue
+        if fname in files: path = os.path.join(d, fname); break
+    key = '%s:%d' % (fname, line)
+    if path:
+        try:
+            src = open(path, encoding='utf-8', errors='replace').read().split('\n')
+            expr = re.sub(r'\s+', ' ', src[line - 1].strip())[:90]
+            fn = '?'
+            for i in range(line - 1, max(0, line - 400), -1):
+                mm = re.match(r'^([A-Za-z_][\w]*)<.*>::(~?\w+)\s*\(', src[i]) or re.match(r'^([A-Za-z_][\w]*)::(~?\w+)\s*\(', src[i])
+                if mm: fn = mm.group(1) + '::' + mm.group(2); break
+            key = fn + '|' + expr
+        except Exception: pass
+    _akeys[k] = key
+    return key
 
 def summarize(chk, header, trailer, stray):
     return {
